@@ -117,6 +117,11 @@ theorem findLast_eq (cs : CaseMode) (s : List Nat) (sep : Sep) (hs : s.length < 
   exact isFindLast_unique cs s SIZE_MAX sep.bytes _ _ h
     (isFindLast_lastOcc cs s sep.bytes SIZE_MAX (by unfold SIZE_MAX; omega))
 
+theorem take_window_drop (s : List Nat) (i n : Nat) :
+    s.take i ++ window s i n ++ s.drop (i + n) = s := by
+  unfold window
+  rw [List.append_assoc, ← List.drop_drop, List.take_append_drop, List.take_append_drop]
+
 /-! ### before_* / after_* -/
 
 theorem skipOf_eq (sep : Sep) (i : Nat) (h : i + sep.bytes.length < 2^63) :
